@@ -53,7 +53,7 @@ Proof. reflexivity. Qed.
 (* binary operators associate to the left: a op b op c is read (a op b) op c, and
    the right-nested tree needs parentheses *)
 Theorem C03_left_associative :
-  forall a b c : expr, wp a = true -> wp b = true -> wp c = true ->
+  forall a b c : expr, wp a = true -> wp b = true -> wp c = true -> npos b = true -> npos c = true ->
     lvl_or <= rl a -> lvl_or < lmin b -> lvl_or < lmin c -> lvl_or <= rl b ->
     wp (EOr (EOr a b) c) = true /\ wp (EOr a (EOr b c)) = false.
 Proof. exact or_left_assoc. Qed.
@@ -67,26 +67,26 @@ Hypothesis lit_ok : forall v, is_json v = true -> json_unmarshal (lit_text v) = 
 
 Theorem C03_parse_of_any_spelling :
   forall (e : expr) (ts : list token),
-    wp e = true -> wf_tokens ts ->
+    wp e = true -> npos e = true -> wf_tokens ts ->
     Spell ts 0 (render lit_text e ++ [tk tEOF []]) ->
     parse_tokens ts = Ok (compile e).
 Proof. exact (parse_tokens_complete lit_text lit_ok). Qed.
 
 Theorem C03_parse_render :
-  forall e : expr, wp e = true -> parse_tokens (render lit_text e ++ [tk tEOF []]) = Ok (compile e).
+  forall e : expr, wp e = true -> npos e = true -> parse_tokens (render lit_text e ++ [tk tEOF []]) = Ok (compile e).
 Proof. exact (parse_render lit_text lit_ok). Qed.
 
 (* from bytes: Compile on the spaced text of a well-precedenced tree is its AST;
    texty: quoted names are valid UTF-8 and the literal texts have no dangling
    backslash (both hold for what json.Marshal writes) *)
 Theorem C03_compile_of_text :
-  forall e : expr, wp e = true -> texty lit_text e = true ->
+  forall e : expr, wp e = true -> npos e = true -> texty lit_text e = true ->
     Api.compile (expr_text lit_text e) = Ok (compile e).
 Proof. exact (compile_expr_text lit_text lit_ok). Qed.
 
 Theorem C03_search_of_text :
   forall (ord : obj -> obj), (forall m, Permutation.Permutation (ord m) m) ->
-  forall (e : expr) d, wp e = true -> texty lit_text e = true -> sem_ok e = true -> plain d = true ->
+  forall (e : expr) d, wp e = true -> npos e = true -> texty lit_text e = true -> sem_ok e = true -> plain d = true ->
     Api.search ord (expr_text lit_text e) d = eval ord e d.
 Proof. exact (search_expr_text lit_text lit_ok). Qed.
 
@@ -134,7 +134,7 @@ Definition e_text : @expr FloatNum :=
   EPipe (EValProj (Some (idn "a")) (RDot (ESub (EIdent true (str "b c")) (idn "c"))))
         (EOr (ELit (VStr (str "x`y"))) (EIndex None (-1))).
 Example C03_text_example :
-  (wp e_text && texty mtext e_text &&
+  (wp e_text && npos e_text && texty mtext e_text &&
    bytes_eqb (expr_text mtext e_text) (str "a . * . ""b c"" . c | `""x\`y""` || [ -1 ] ") &&
    aobs_match false (aobs_of (Api.compile (expr_text mtext e_text))) (AOk (compile e_text)))%bool = true.
 Proof. vm_compute. reflexivity. Qed.
